@@ -1170,6 +1170,46 @@ func c03Case(w *core.Worker, i int) {
 	for k := 0; k < 8; k++ {
 		judgeQ(genQueryC03(r))
 	}
+	// NATURAL joins between sources without a common column (no join condition at all) next to an empty / a two-row table:
+	// every pair matches, and the outer forms still pad the rows of the preserved side
+	{
+		core.WriteFiles(w.Work, map[string]string{"e2.csv": "x,y\n", "n2.csv": "x,y\n1,p\n2,q\n"})
+		na64 := int64(na)
+		for _, jk := range []string{"INNER", "LEFT", "RIGHT", "FULL"} {
+			for _, other := range []string{"e2", "n2"} {
+				m := int64(0)
+				if other == "n2" {
+					m = 2
+				}
+				wantRows := na64 * m
+				if m == 0 && (jk == "LEFT" || jk == "FULL") {
+					wantRows = na64
+				}
+				if na64 == 0 && (jk == "RIGHT" || jk == "FULL") {
+					wantRows = m
+				}
+				wantX := na64 * m
+				if na64 == 0 && (jk == "RIGHT" || jk == "FULL") {
+					wantX = m
+				}
+				q := fmt.Sprintf("SELECT COUNT(*), COUNT(x), COUNT(a.id) FROM a NATURAL %s JOIN %s", jk, other)
+				res := s.Exec(q)
+				if res.Err != nil || len(res.Views) != 1 {
+					viol("query-error", q, fmt.Sprint(res.Err), "", "")
+					continue
+				}
+				row := res.Views[0].Rows[0]
+				wantA := na64 * m
+				if m == 0 && (jk == "LEFT" || jk == "FULL") {
+					wantA = na64
+				}
+				if row[0].S != fmt.Sprint(wantRows) || row[1].S != fmt.Sprint(wantX) || row[2].S != fmt.Sprint(wantA) {
+					viol("rows-differ:natural-without-common-column", q, fmt.Sprintf("a has %d rows, %s has %d", na, other, m), fmt.Sprint(valsToStrs(row)), fmt.Sprint([]int64{wantRows, wantX, wantA}))
+				}
+				judged++
+			}
+		}
+	}
 	// multi-column USING / NATURAL outer joins: several merged columns, NULLs in the first of them
 	for _, jk := range []string{"LEFT", "RIGHT", "FULL", "INNER"} {
 		for _, uc := range []string{"k, id", "id, k", ""} {
